@@ -32,6 +32,7 @@ CONSTANTS
   Export = FALSE
   ExportDecomp = TRUE
 INVARIANT DecompCheck
+CONSTRAINT DecompConstraint
 """
 TOL = 1e-8
 
